@@ -51,7 +51,12 @@ def make_scn(rng, k, nclusters, comp, delay_us):
                 ops.append({"cid": cid, "size": 1400000 + rng.randrange(0, 1000), "cls": "low", "hint": "yes"})
         else:
             cid += 1
-            ops.append({"cid": cid, "size": rng.choice([0, 10, 70000, MIB]), "cls": "rand", "hint": "no"})
+            ops.append({"cid": cid, "size": rng.choice([0, 10, 70000, MIB, 3 * MIB]), "cls": "rand", "hint": "no"})
+    # contents come from memory, from whole files and from sub-ranges of files (the writer copies file-backed
+    # contents through another path than buffers held in memory)
+    for o in ops:
+        o["src"] = rng.choice(["mem", "mem", "file", "range"])
+        o["origin"] = rng.choice([1, 777, 4097])
     return {"kind": "content", "id": "p%d" % k, "comp": comp, "level": {"zstd": rng.choice([-22, 1, 3]), "lz4": 0, "lzma": 0}[comp],
             "ops": ops, "delay_seed": rng.randrange(1, 1 << 30), "delay_max_us": delay_us, "origin": "pipeline"}
 
